@@ -389,3 +389,19 @@ Proof.
     rewrite Hov. intros e e' [<-|[]] [<-|[]]. vm_compute. intros [].
   - constructor.
 Qed.
+
+(* ... and down to the trees on disk: two runs that end in states whose names read the same (the conclusion of
+   C09_split_pushes_equal_one gives that for the single push and the last invocation of a split) leave, once saved,
+   trees that read the same *)
+Theorem C09_saved_trees_agree :
+  forall K dm fsA ovA fsA1 clA fsC ovC fsC1 clC,
+    wsim K dm fsA ovA fsC ovC ->
+    fs_fault fsA = None -> save_all dm ovA [] fsA = (fsA1, ROk clA) ->
+    keys_indep ovA -> Forall (entry_start_ok fsA) ovA -> Forall (entry_ok dm) ovA ->
+    (forall k, okkey K k -> ov_get k ovA = None -> Forall (fun e => indep (normalize k) (kpath e)) ovA) ->
+    fs_fault fsC = None -> save_all dm ovC [] fsC = (fsC1, ROk clC) ->
+    keys_indep ovC -> Forall (entry_start_ok fsC) ovC -> Forall (entry_ok dm) ovC ->
+    (forall k, okkey K k -> ov_get k ovC = None -> Forall (fun e => indep (normalize k) (kpath e)) ovC) ->
+    wsim K dm (fst (clean_all clA fsA1)) [] (fst (clean_all clC fsC1)) [].
+Proof. exact saved_trees_agree. Qed.
+Print Assumptions C09_saved_trees_agree.
